@@ -75,6 +75,8 @@ def views_jobs(tier, seed):
     for fam, n in ALL_FAMS:
         if tier == 'quick':
             jobs.append(TraceJob(SMALL, fam, shards=2 if n < 400 else 3, args=['--cases', n, '--extra', 'views,nobig'], label=fam + '-views@' + SMALL))
+            # owners and windows mixed among the operands of one call (different row alignments, masked and unmasked last words)
+            jobs.append(TraceJob(SMALL, fam, shards=1, args=['--cases', max(80, n // 3), '--extra', 'mixviews,nobig,nosweep', '--seed', 11 + seed], label=fam + '-mixviews@' + SMALL))
             if fam in ('ple', 'elim', 'mul', 'trsm', 'solve'):
                 # wide views (rows of 6..11 words): some kernels only touch a last word when there are words to the right of a block
                 jobs.append(TraceJob(SMALL, fam, shards=1, args=['--cases', 48, '--maxdim', 700, '--tier', 'thorough', '--extra', 'views,nobig,nosweep', '--seed', 7 + seed],
@@ -82,6 +84,7 @@ def views_jobs(tier, seed):
         else:
             jobs.append(TraceJob(SMALL, fam, shards=8, args=['--cases', n * 6, '--extra', 'views,nobig'], label=fam + '-views@' + SMALL, timeout=3400))
             jobs.append(TraceJob(NOSSE, fam, shards=4, args=['--cases', n * 2, '--extra', 'views,nobig'], label=fam + '-views@' + NOSSE, timeout=3400))
+            jobs.append(TraceJob(SMALL, fam, shards=4, args=['--cases', n * 2, '--extra', 'mixviews,nobig', '--seed', 11 + seed], label=fam + '-mixviews@' + SMALL, timeout=3400))
     # the block-recursive PLE (Schur complement, L compression) applied to windows: only reachable with the big shapes
     jobs.append(TraceJob(SMALL, 'ple', shards=5 if tier == 'quick' else 16, args=['--extra', 'views,onlybig'], label='ple-bigviews@' + SMALL, timeout=3400, xmx='6g'))
     return jobs
